@@ -32,6 +32,7 @@ type Spec struct {
 	Order    int    `json:"order"`     // 0 client half-closes first; 1 target speaks and half-closes first; 2 both at once; 3 target answers and goes away while the client keeps uploading and reads only at the end
 	TCPBuf   int    `json:"tcpbuf"`
 	IdleS    int    `json:"idle_s"` // seconds both sides stay silent after the handshake before data flows
+	StopMid  bool   `json:"listener_closed_mid_relay,omitempty"` // the listener stops accepting (StreamServe's context is cancelled) after the handshake; the relay goes on
 }
 
 func (s Spec) String() string { b, _ := json.Marshal(s); return string(b) }
@@ -150,7 +151,15 @@ func build(s Spec) *engine.Scenario {
 		switch s.Order {
 		case 0, 2:
 			rd := vrt.Spawn("client-reader", func() { cl.ReadAll() })
-			if s.IdleS > 0 && len(chunks) > 1 {
+			if s.StopMid && len(chunks) > 1 {
+				// the connection is relaying when its listener is closed: it runs to completion
+				hs := len(world.EncodeStream(key, 1, chunks[0]))
+				cl.Send(wire[:hs], s.Seg)
+				vrt.WaitIdle()
+				w.CloseListener()
+				vrt.WaitIdle()
+				cl.Send(wire[hs:], s.Seg)
+			} else if s.IdleS > 0 && len(chunks) > 1 {
 				// handshake and address now, the payload only after a long silence
 				hs := len(world.EncodeStream(key, 1, chunks[0]))
 				cl.Send(wire[:hs], s.Seg)
@@ -190,7 +199,11 @@ func build(s Spec) *engine.Scenario {
 		}
 		cl.C.Close()
 		vrt.WaitIdle()
-		w.Stop()
+		if s.StopMid {
+			w.Stop2()
+		} else {
+			w.Stop()
+		}
 		tgt.Ln.Close()
 		// observations
 		o.clientErr = cl.Err
@@ -300,6 +313,12 @@ func gridE(tier string) []Spec {
 			}
 		}
 	}
+	// the listener is closed while the connection is relaying
+	for cipher := 0; cipher < 4; cipher++ {
+		for _, order := range []int{0, 2} {
+			out = append(out, Spec{Cipher: cipher, AddrType: cipher % 3, Coalesce: 0, Up: 5000, Down: 7000, Chunk: 1000, Order: order, StopMid: true})
+		}
+	}
 	// the target answers and goes away while the client keeps uploading (and reads late)
 	for cipher := 0; cipher < 4; cipher++ {
 		for _, down := range []int{1, 200, 2000, 16384} {
@@ -323,6 +342,7 @@ func gridS() []Spec {
 		}
 	}
 	out = append(out, Spec{Cipher: 1, AddrType: 0, Coalesce: 0, Up: 600, Down: 1000, Chunk: 100, Order: 3})
+	out = append(out, Spec{Cipher: 2, AddrType: 1, Coalesce: 0, Up: 300, Down: 200, Chunk: 100, Order: 2, StopMid: true, TCPBuf: 256})
 	return out
 }
 
